@@ -89,7 +89,13 @@ class Relation:
         )
 
     def __lt__(self, other: Any) -> bool:
-        return str(self) < str(other)
+        # The order must not depend on the order of the children, consistently with __eq__
+        return self._sort_key() < (other._sort_key() if isinstance(other, Relation) else str(other))
+
+    def _sort_key(self) -> str:
+        parent_name = self.parent.name if self.parent else ""
+        children_names = " ".join(sorted(child.name for child in self.children))
+        return f"{parent_name}[{self.card_min},{self.card_max}]{children_names}"
 
 
 class FeatureType(Enum):
